@@ -522,6 +522,9 @@ func (rp *replayer) replay(fn *ssa.Function, v *Verdict, cexPath string) (bool, 
 		os.RemoveAll(scratch)
 		txt := string(out)
 		last = lastLines(txt, 6)
+		if os.Getenv("GOSYM_REPLAY_VERBOSE") != "" {
+			fmt.Fprintln(os.Stderr, txt)
+		}
 		switch v.Kind {
 		case "assert", "leak", "deadlock", "race":
 			if strings.Contains(txt, "VH-ASSERT-FAILED "+v.Assertion) {
@@ -529,6 +532,9 @@ func (rp *replayer) replay(fn *ssa.Function, v *Verdict, cexPath string) (bool, 
 			}
 			if v.Kind != "assert" && strings.Contains(txt, "VH-ASSERT-FAILED "+nativeTwin(v)) {
 				return true, "native twin assertion failed"
+			}
+			if hangKind && strings.Contains(txt, "all goroutines are asleep") {
+				return true, "the Go runtime reports a global deadlock natively"
 			}
 			if hangKind && strings.Contains(txt, "test timed out") {
 				return true, "the native run hangs (test timed out after " + testTimeout + ")"
